@@ -47,7 +47,7 @@ type Event struct {
 	Cp     *CleanPkt       `json:"cp,omitempty"`
 	Ack    string          `json:"ack,omitempty"`
 	Proof  *Proof          `json:"proof,omitempty"`
-	Rules  []string        `json:"rules,omitempty"`
+	Rules  *[][]string     `json:"rules,omitempty"` // triples [src,dst,port], "*" = wildcard
 	Signer int             `json:"signer,omitempty"`
 	X      string          `json:"x,omitempty"`   // second chain argument (client name etc.)
 	Tag    string          `json:"tag,omitempty"` // alteration family / free label from the generator
@@ -63,9 +63,11 @@ type Tags struct {
 
 func NewTags() *Tags {
 	t := &Tags{data: map[string][]byte{}, byHash: map[string]string{}, byBytes: map[string]string{}}
-	t.Add("d1", []byte("payload-one"))
-	t.Add("d2", []byte("payload-two"))
-	t.Add("d3", []byte("payload-three"))
+	// d1, d3: not decodable by the NFT / MT applications (protobuf wire type 7 is illegal);
+	// d2: a single unknown protobuf field, i.e. decodable as a packet whose fields are all blank
+	t.Add("d1", []byte("\x07payload-one"))
+	t.Add("d2", []byte("\xa0\x06\x01"))
+	t.Add("d3", []byte("\x07payload-three"))
 	t.Add("mock", tibcmock.MockAcknowledgement)
 	t.Add("ok", packettypes.NewResultAcknowledgement([]byte{byte(1)}).GetBytes())
 	t.Add("unauth", packettypes.NewErrorAcknowledgement("unauthorized").GetBytes())
@@ -99,18 +101,43 @@ func (t *Tags) HashTag(h []byte) string {
 	return "?" + hex.EncodeToString(h)[:8]
 }
 
-// BytesTag maps ack/data bytes to a tag. Unknown error acknowledgements are "err", anything else "?…".
+// errClasses classifies the text of genuine application error acknowledgements; the specification
+// predicts these tags (first match wins).
+var errClasses = [][2]string{
+	{"sender address cannot be blank", "err"},
+	{"receiver address cannot be blank", "err"},
+	{"decoding bech32 failed", "err_rcv"},
+	{"invalid bech32", "err_rcv"},
+	{"class has no prefix", "err_prefix"},
+	{"already exists", "err_dup"},
+	{"not exist", "err_missing"},
+	{"not found", "err_missing"},
+	{"unauthorized", "err_owner"},
+	{"invalid amount", "err_amount"},
+}
+
+// BytesTag maps ack/data bytes to a tag. Error acknowledgements are classified by their text.
 func (t *Tags) BytesTag(b []byte) string {
 	if tag, ok := t.byBytes[string(b)]; ok {
 		return tag
 	}
 	var ack packettypes.Acknowledgement
 	if err := ack.Unmarshal(b); err == nil {
-		if _, isErr := ack.Response.(*packettypes.Acknowledgement_Error); isErr {
-			// register it so that the stored hash maps to the same tag
+		if e, isErr := ack.Response.(*packettypes.Acknowledgement_Error); isErr {
 			h := sha256.Sum256(b)
-			t.byHash[hex.EncodeToString(h[:])] = "err"
-			return "err"
+			tag := "err_other_" + hex.EncodeToString(h[:])[:6]
+			for _, c := range errClasses {
+				if strings.Contains(e.Error, c[0]) {
+					tag = c[1]
+					break
+				}
+			}
+			if _, taken := t.data[tag]; taken {
+				// a second, different text of the same class in one trace
+				tag = tag + "_" + hex.EncodeToString(h[:])[:6]
+			}
+			t.Add(tag, append([]byte{}, b...))
+			return tag
 		}
 	}
 	h := sha256.Sum256(b)
@@ -126,7 +153,8 @@ type ChainState struct {
 	Cp    [][]interface{} `json:"cp"`    // [s,d,n]
 	Ma    [][]interface{} `json:"ma"`    // [s,d,n]
 	Cl    []string        `json:"cl"`    // chains this chain holds a client of
-	Rules []string        `json:"rules"` // routing rules with chain names abstracted
+	Ex    []string        `json:"ex"`    // clients that report Expired at the next block time
+	Rules [][]string      `json:"rules"` // routing rules as triples, chain and port names abstracted
 }
 
 func (r *Runner) splitChan(rest string) (string, string, bool) {
@@ -144,7 +172,7 @@ func (r *Runner) Project(x string) ChainState {
 	ctx := c.GetContext()
 	pk := c.App.TIBCKeeper.PacketKeeper
 	cs := ChainState{Ns: [][]interface{}{}, Cm: [][]interface{}{}, Rc: [][]interface{}{}, Ak: [][]interface{}{},
-		Cp: [][]interface{}{}, Ma: [][]interface{}{}, Cl: []string{}, Rules: []string{}}
+		Cp: [][]interface{}{}, Ma: [][]interface{}{}, Cl: []string{}, Ex: []string{}, Rules: [][]string{}}
 	for _, s := range pk.GetAllPacketSendSeqs(ctx) {
 		if s.Sequence != 1 {
 			cs.Ns = append(cs.Ns, []interface{}{n.A(s.SourceChain), n.A(s.DestinationChain), s.Sequence})
@@ -179,8 +207,11 @@ func (r *Runner) Project(x string) ChainState {
 	}
 	it.Close()
 	for _, y := range n.Names {
-		if _, found := c.App.TIBCKeeper.ClientKeeper.GetClientState(ctx, n.Real[y]); found {
+		if cst, found := c.App.TIBCKeeper.ClientKeeper.GetClientState(ctx, n.Real[y]); found {
 			cs.Cl = append(cs.Cl, y)
+			if cst.Status(ctx, c.App.TIBCKeeper.ClientKeeper.ClientStore(ctx, n.Real[y]), c.App.AppCodec()) == exported.Expired {
+				cs.Ex = append(cs.Ex, y)
+			}
 		}
 	}
 	if rules, ok := c.App.TIBCKeeper.RoutingKeeper.GetRoutingRules(ctx); ok {
@@ -188,28 +219,34 @@ func (r *Runner) Project(x string) ChainState {
 			cs.Rules = append(cs.Rules, r.absRule(ru))
 		}
 	}
-	sort.Strings(cs.Rules)
+	sort.Slice(cs.Rules, func(i, j int) bool { return strings.Join(cs.Rules[i], ",") < strings.Join(cs.Rules[j], ",") })
 	return cs
 }
 
-func (r *Runner) absRule(ru string) string {
+func (r *Runner) absRule(ru string) []string {
 	f := strings.Split(ru, ",")
 	for i := range f {
 		if a, ok := r.N.Abs[f[i]]; ok {
 			f[i] = a
 		}
 	}
-	return strings.Join(f, ",")
+	if len(f) == 3 {
+		f[2] = r.absPort(f[2])
+	}
+	return f
 }
 
-func (r *Runner) realRule(ru string) string {
-	f := strings.Split(ru, ",")
-	for i := range f {
-		if x, ok := r.N.Real[f[i]]; ok {
-			f[i] = x
+func (r *Runner) realRule(f []string) string {
+	g := append([]string{}, f...)
+	for i := range g {
+		if x, ok := r.N.Real[g[i]]; ok {
+			g[i] = x
 		}
 	}
-	return strings.Join(f, ",")
+	if len(g) == 3 {
+		g[2] = r.port(g[2])
+	}
+	return strings.Join(g, ",")
 }
 
 // Callback is an application callback observed in a transaction's events.
@@ -344,6 +381,12 @@ func (r *Runner) snapshot(rec *Rec) {
 }
 
 func (r *Runner) emit(ev *Event, res *abci.ExecTxResult, info map[string]interface{}) *Rec {
+	// make the new state provable everywhere before anything else happens
+	for _, x := range r.N.Names {
+		if r.N.dirty[x] {
+			r.N.Settle(x)
+		}
+	}
 	rec := &Rec{Tr: r.tr, I: r.i, Ev: ev, Info: info, Calls: r.calls}
 	if rec.Calls == nil || (res != nil && res.Code != 0) {
 		// callbacks of a failed (reverted) transaction had no effect
@@ -427,8 +470,13 @@ func (r *Runner) StepCore(ev *Event) *Rec {
 	case "SetRules":
 		c := n.Chains[ev.C]
 		rules := []string{}
-		for _, ru := range ev.Rules {
-			rules = append(rules, r.realRule(ru))
+		if ev.Rules != nil {
+			for _, ru := range *ev.Rules {
+				rules = append(rules, r.realRule(ru))
+			}
+		} else {
+			e := [][]string{}
+			ev.Rules = &e
 		}
 		ctx := c.GetContext()
 		cctx, write := ctx.CacheContext()
